@@ -39,7 +39,7 @@ theorem uses_growth_append (cfg : Cfg) (c : Nat) (vs : List α) (w w' : World α
     (hp : Pre cfg w c) (hpol : StrongPolicy cfg) (hgrow : ¬ (w.hdr c).size + vs.length ≤ (w.hdr c).cap)
     (hr : appendRangeFwd cfg c true (vs.map Src.ext) w = .ok r w') :
     (w'.hdr c).cap = newCapacity cfg.maxSize (w.hdr c).cap ((w.hdr c).size + vs.length) := by
-  have h := (sat_of_ok (appendRangeFwd_sat cfg c true _ w hp.vec hp.led hp.nmax (argsOK_ext cfg w c vs) (fun _ => hpol)) hr).2
+  have h := (sat_of_ok (appendRangeFwd_sat cfg c true _ w hp.vec hp.led hp.nmax ((argsOK_ext cfg w c vs).srcs hp.vec hp.led) (fun _ => hpol)) hr).2
   have := h.grown (by simpa using hgrow)
   simpa using this.2
 
